@@ -326,6 +326,7 @@ func c19EveryDocument(c *Ctx, parse *FuncInfo, loop *ast.ForStmt, decode *ast.Ca
 		return true
 	})
 	n := 0
+	var docFlow *Flow
 	var walk func(nd ast.Node, depth int)
 	walk = func(nd ast.Node, depth int) {
 		ast.Inspect(nd, func(m ast.Node) bool {
@@ -369,6 +370,20 @@ func c19EveryDocument(c *Ctx, parse *FuncInfo, loop *ast.ForStmt, decode *ast.Ca
 			for _, g := range lexicalGuards(pm, exit, loop.Body) {
 				if (g.Tag == nil && mentionsErr(g.E)) || strictTrue(g) {
 					ok = true
+				}
+			}
+			if !ok {
+				// strict mode may follow from the flow instead of an enclosing if: the relaxed case was
+				// dealt with (and the iteration ended) further up
+				if _, isRet := exit.(*ast.ReturnStmt); isRet {
+					if docFlow == nil {
+						docFlow = c.P.NewFlow(parse)
+					}
+					for _, sm := range docFlow.Find(func(x ast.Node) bool { return x == exit }) {
+						if docFlow.Dominated(sm.Site, sm.Inner, strictTrue) {
+							ok = true
+						}
+					}
 				}
 			}
 			c.Check(ok, "C19-R3", "Parse:the document loop is left only on a decoder error or in strict mode", exit.Pos(), "guarded by the decode error / strict mode",
